@@ -120,6 +120,8 @@ pub struct Invocation {
     pub aslr_off: bool,
     /// relative path of the --output file to read back afterwards
     pub out_path: Option<String>,
+    /// additional environment variables of the child process
+    pub extra_env: Vec<(String, String)>,
 }
 
 #[derive(Clone, Debug)]
@@ -191,6 +193,13 @@ pub fn run_cli(cli: &str, shim: &str, inv: &Invocation) -> RunResult {
     cmd.env_clear();
     cmd.env("PATH", "/usr/bin:/bin");
     cmd.env("NO_COLOR", "1");
+    for (k, v) in &inv.extra_env {
+        if v == "<unset>" {
+            cmd.env_remove(k);
+        } else {
+            cmd.env(k, v);
+        }
+    }
     if let Some(plan) = &inv.plan {
         std::fs::write(format!("{}/.plan", dir), plan.text(&inv.src_suffix, &inv.out_suffix)).expect("plan");
         cmd.env("LD_PRELOAD", shim);
